@@ -579,4 +579,33 @@ theorem bytes_noflush (a : WAlloc) (ha : a.Sound) (w : Wr) (l : Log RErr) (h : W
     exact ⟨i1, i2, by rw [i3, f2]⟩
 
 
+
+/-! ## bytes writers over whole histories (every flush epoch) -/
+
+/-- a bytes writer stays a bytes writer without a sticky error, through every history -/
+theorem bytes_run (a : WAlloc) (ha : a.Sound) (w : Wr) (l : Log RErr) (h : WSim w l)
+    (hdc : w.disableCache = true) (he : w.err = none) (ops : List WOp) :
+    (w.run a ops).2.disableCache = true ∧ (w.run a ops).2.err = none := by
+  induction ops generalizing w l with
+  | nil => exact ⟨hdc, he⟩
+  | cons op ops ih =>
+    have f1 := (step_frame a ha w h.inv op).1
+    have f2 := step_err_bytes a ha w h.inv hdc he op
+    have h2 := (sim_step a ha w l h op).2
+    simp only [Wr.run]
+    exact ih _ _ h2 (by rw [f1]; exact hdc) f2
+
+theorem specRun_append (l : Log RErr) (xs ys : List WOp) :
+    (specRun l (xs ++ ys)).2 = (specRun (specRun l xs).2 ys).2 := by
+  induction xs generalizing l with
+  | nil => rfl
+  | cons x xs ih => simp only [List.cons_append, specRun]; exact ih _
+
+/-- with a sink that never refuses, Flush always starts the log over -/
+theorem Log.flush_items_nil (l : Log RErr) (he : l.err = none) (hf : ∀ k, l.fail k = none) :
+    l.flush.2.items = [] := by
+  by_cases hz : l.writtenLen = 0
+  · rw [Log.flush_zero l he hz]
+  · rw [Log.flush_accepted l he hz (hf _)]
+
 end Verif
